@@ -522,7 +522,8 @@ FIXPOINT_PROGRAMS = {
 }
 
 
-def rule_fixpoint_programs(ctx, rep):
+def rule_fixpoint_programs(ctx, rep, only=None):
+    """only: prefixes of the disagreement kinds this property is about (None: all)"""
     rule = "T-FIXPOINT(programs)"
     rep.rule(rule, "the complete context analysis (parse_teal, construct_function, block/edge constraints, forward and backward passes) evaluated on "
                    "hand-written programs of the direct-check fragment and a fixed sample of enumerated ones, per governed field, against the "
@@ -548,6 +549,8 @@ def rule_fixpoint_programs(ctx, rep):
         except (RuntimeError, ValueError) as e:
             raise Unsupported(f"{rule}: {name}: {e}")
         n += 1
+        if only is not None:
+            bad = [x for x in bad if any(x[2].split(" at ")[0].startswith(o) for o in only)]
         if not bad:
             rep.ok(rule, {"program": name} if n <= 12 else None)
         if bad:
